@@ -1,4 +1,5 @@
 /* Small C helpers callable by name from h4x programs (struct layout self-description etc.). */
+#include <stdint.h>
 #include <stddef.h>
 #include <string.h>
 #include "hdf.h"
@@ -60,6 +61,36 @@ hx_find_all(int32 fid, int32 stag, int32 sref, int32 dir, int32 *o, int32 max, i
             return -2;
     }
     return n;
+}
+
+/* Reserve (Hstartwrite, nothing written) an element that ends exactly at file offset 2^31 + delta.
+ * The current end of the file is found by writing a 1-byte element first.
+ * Returns 1 if the reservation was accepted, 0 if it was refused, < -1 on harness problems. */
+int32
+hx_reserve_to_boundary(int32 fid, int32 tag, int32 ref, int32 delta)
+{
+    uint8  one = 0x5a;
+    int32  off = 0, len = 0, aid;
+    int64_t end, want;
+    if (Hputelement(fid, (uint16)tag, (uint16)(ref + 1), &one, 1) != 1)
+        return -2;
+    aid = Hstartread(fid, (uint16)tag, (uint16)(ref + 1));
+    if (aid == FAIL)
+        return -3;
+    if (Hinquire(aid, NULL, NULL, NULL, &len, &off, NULL, NULL, NULL) == FAIL) {
+        Hendaccess(aid);
+        return -4;
+    }
+    Hendaccess(aid);
+    end  = (int64_t)off + len;
+    want = ((int64_t)1 << 31) + delta - end;
+    if (want <= 0 || want > 0x7fffffff)
+        return -5;
+    aid = Hstartwrite(fid, (uint16)tag, (uint16)ref, (int32)want);
+    if (aid == FAIL)
+        return 0;
+    Hendaccess(aid);
+    return 1;
 }
 
 /* Enumerate the data elements matching tag/ref (0 = wildcard) by Hstartread + Hnextread(DF_CURRENT).
